@@ -232,4 +232,4 @@ var c03 = &vh.Prop[c03Case]{
 
 func init() { registrars = append(registrars, c03.Register) }
 
-func TestC03(t *testing.T) { c03.Check(t, vh.N(20000, 50000)) }
+func TestC03(t *testing.T) { c03.Check(t, vh.N(20000, 30000)) }
